@@ -183,7 +183,22 @@ def run(C, R):
                            '%s returns without adding exactly its argument to permits [%s]' % (
                                rel_fn, path_cond(E, path)), '%s:%s' % (rf['file'], rf['line']),
                            {'trace': trace_summary(path)})
-            callers = sorted(set(c for c, _ in CG.callers_of(rel_fn)))
+            # the functions that reach the growth function: through private helpers (free functions that are not part
+            # of the public API, e.g. a generic `release_permits(&Mutex<..>, n)` shared by the two flavours) up to
+            # the first public operation or trait method
+            callers, seen_c, work_c = [], set(), [rel_fn]
+            while work_c:
+                q = work_c.pop()
+                for c, _ in CG.callers_of(q):
+                    if c in seen_c or c == rel_fn:
+                        continue
+                    seen_c.add(c)
+                    cq = F.fn(c) or {}
+                    if cq.get('kind') == 'fn' and not cq.get('reachable') and not cq.get('impl_adt') and CG.callers_of(c):
+                        work_c.append(c)
+                    else:
+                        callers.append(c)
+            callers = sorted(set(callers))
             for c in callers:
                 cf = F.fn(c)
                 tr = (cf.get('impl_trait') or '') if cf else ''
